@@ -215,6 +215,17 @@ type taggedStruct struct {
 	hidden int
 }
 
+// taggedCfgStruct spells the dictionary {a, b, c, d} with an inline *Config holding c and d
+// (the package documentation lists *Config among the types an inline field may have).
+type taggedCfgStruct struct {
+	First interface{}  `config:"a"`
+	B     interface{}  `config:"b"`
+	Rest  *ucfg.Config `config:",inline"`
+}
+
+// LastStructForm names the struct form the last Render of a RepStruct dictionary chose (reach probe).
+var LastStructForm string
+
 // Render builds the Go value for n in representation rep. Nested containers
 // use the generic form except where the representation says otherwise.
 // opts are the options the value will be normalised with (needed for RepConfig).
@@ -239,8 +250,40 @@ func Render(n *model.Node, rep int, opts []ucfg.Option) interface{} {
 		return c
 	case RepStruct:
 		if len(n.A) == 0 && !(len(n.D) == 0 && n.Sticky == 2) {
-			if len(n.D)%2 == 1 {
+			// (FitRep gives every struct source all four names: the form is chosen by how many of them
+			// hold a value)
+			set := 0
+			for _, c := range n.D {
+				if c.K != model.KNil {
+					set++
+				}
+			}
+			if set%3 == 0 {
+				// ("a" and "b" as fields, the rest in an inline *Config)
+				LastStructForm = "a, b and an inline *Config"
+				rest := map[string]interface{}{}
+				t := &taggedCfgStruct{}
+				for _, k := range n.Keys() {
+					x := Render(n.D[k], RepGeneric, opts)
+					switch k {
+					case "a":
+						t.First = x
+					case "b":
+						t.B = x
+					default:
+						rest[k] = x
+					}
+				}
+				c, err := ucfg.NewFrom(rest, opts...)
+				if err != nil {
+					panic(fmt.Sprintf("harness: inline Config of a struct source: %v", err))
+				}
+				t.Rest = c
+				return t
+			}
+			if set%3 == 1 {
 				// the tagged form: renamed, inline, pointer, ignored and unexported fields
+				LastStructForm = "renamed, inline, pointer, ignored and unexported fields"
 				t := &taggedStruct{Skip: "decoy", hidden: 7}
 				for _, k := range n.Keys() {
 					x := Render(n.D[k], RepGeneric, opts)
@@ -257,11 +300,12 @@ func Render(n *model.Node, rep int, opts []ucfg.Option) interface{} {
 						}
 					}
 				}
-				if len(n.D)%4 == 1 {
+				if set%2 == 1 {
 					return t
 				}
 				return *t
 			}
+			LastStructForm = "plain fields A-D"
 			v := reflect.New(abcdStruct).Elem()
 			for _, k := range n.Keys() {
 				f := v.FieldByName(string(rune('A' + (k[0] - 'a'))))
